@@ -203,6 +203,15 @@ def run(tier):
                       "an ordering comparison of character indices is evaluated without a guard that both positions are on the same line: the number of "
                       "characters a line break occupies (1 for LF/CR, 2 for CR LF) now changes control flow", site=site(f, b["term"]["sp"]), detail=cfg.expr_str(e))
     rep.extra["index_ordering_comparisons"] = n_idx
+    # (b, d class part) no consuming step other than the break helpers is reached with a break at the cursor, and no cursor character that
+    # may be a break is pushed into text: E1 pass B
+    from . import classdom
+    for B in ((16,) if tier == "quick" else (8, 16, 128)):
+        EB = classdom.run(F, B)
+        classdom.contract_sites(rep, F, EB, B)
+        classdom.break_discipline(rep, F, EB, B, "break-discipline")
+        n = classdom.cursor_pushes(rep, F, EB, B, "no-break-pushed", EB.BRK, "line breaks must reach scalar text only as the constant '\\n'")
+        rep.extra.setdefault("class_pass", {})[str(B)] = {"contexts": EB.contexts, "cursor_push_sites": n}
     # (d) normalisation
     rep.floor("constant break pushes into scalar text", len(push_consts), 3)
     for k, r, sp in push_consts:
